@@ -669,6 +669,14 @@ pid_t verif_waitpid(pid_t pid, int *wstatus, int options)
   if ((options & WNOHANG) != 0 && nondet_bool()) {
     return 0; /* still running: nothing reaped, *wstatus untouched */
   }
+  if ((options & (WUNTRACED | WCONTINUED)) != 0 && nondet_bool()) {
+    /* asked for by the caller: a stopped or continued child is reported, still
+       running and not reaped */
+    if (wstatus != NULL) {
+      *wstatus = (options & WUNTRACED) != 0 ? (0x7f | (SIGSTOP << 8)) : 0xffff;
+    }
+    return pid;
+  }
   if ((options & WNOHANG) == 0) {
     g.may_block = true; /* returns only once the child is dead */
   }
